@@ -215,7 +215,40 @@ func init() {
 			ex.bigSet(args[0], ex.b.Int(v), fr, pos)
 			return tuple{args[0], ex.b.True}
 		}
-		panic(ex.unsupported("big.Int.SetString on a symbolic string"))
+		if s.opaque || base.Int64() != 10 || len(s.b) > 40 {
+			panic(ex.unsupported("big.Int.SetString on an opaque, long or non-decimal symbolic string"))
+		}
+		// base 10, bytes symbolic, length known: [+-]? digit+ and nothing else; the value is the digit sum
+		bld := ex.b
+		if len(s.b) == 0 {
+			return tuple{(*value)(nil), bld.False}
+		}
+		isDigit := func(c *smt.Term) *smt.Term { return bld.And(bld.Ge(c, ex.k('0')), bld.Le(c, ex.k('9'))) }
+		digitsFrom := func(from int) (*smt.Term, *smt.Term) {
+			ok := bld.True
+			val := ex.k(0)
+			for _, c := range s.b[from:] {
+				ok = bld.And(ok, isDigit(c))
+				val = bld.Add(bld.Mul(val, ex.k(10)), bld.Sub(c, ex.k('0')))
+			}
+			return ok, val
+		}
+		if ok0, v0 := digitsFrom(0); ex.branch("bigsetstring:digits", ok0) {
+			ex.bigSet(args[0], v0, fr, pos)
+			return tuple{args[0], bld.True}
+		}
+		if len(s.b) > 1 {
+			ok1, v1 := digitsFrom(1)
+			if ex.branch("bigsetstring:minus", bld.And(bld.Eq(s.b[0], ex.k('-')), ok1)) {
+				ex.bigSet(args[0], bld.Sub(ex.k(0), v1), fr, pos)
+				return tuple{args[0], bld.True}
+			}
+			if ex.branch("bigsetstring:plus", bld.And(bld.Eq(s.b[0], ex.k('+')), ok1)) {
+				ex.bigSet(args[0], v1, fr, pos)
+				return tuple{args[0], bld.True}
+			}
+		}
+		return tuple{(*value)(nil), bld.False}
 	})
 	reg("(*math/big.Int).BitLen", func(ex *Exec, fr *frame, pos token.Pos, args []value) value {
 		x := ex.bigOf(args[0], fr, pos)
